@@ -50,7 +50,8 @@ def real_to_bits(tok):
         return {f64_bits(float(int(p[2])))}
     if k == "dec":
         t = bytes.fromhex(p[2]).decode("ascii")
-        return {f64_bits(float(t))}
+        x = float(t)
+        return None if math.isnan(x) else {f64_bits(x)}
     if k == "bin":
         neg, m, e = p[2] == "1", int(p[3]), int(p[4])
         try:
